@@ -48,6 +48,8 @@ type Plan struct {
 	Multinode             bool                 `json:"multinode"`
 	Odd                   []OddContent         `json:"odd,omitempty"` // odd-content faults (C16)
 	SignerFaults          []SignerFaultSpec    `json:"signer_faults,omitempty"`
+	// SignerSlow: every signing request takes this long (a slow remote signer); applies with any other signer fault.
+	SignerSlow time.Duration `json:"signer_slow,omitempty"`
 	AccountKind           int                  `json:"account_kind"`
 	// HideSync: the account provider has no account for HideSyncAccount when asked by index for
 	// sync committee work (an exited validator still in the committee).
@@ -66,6 +68,8 @@ type Plan struct {
 	// CoincideReorg: the head event that carries a reorg affecting the current epoch's attester duties arrives
 	// exactly when that slot's attestation job is due (slot start + attestation delay).
 	CoincideReorg bool `json:"coincide_reorg,omitempty"`
+	// AttestTakes: how long the recording attester (focused variant) stays inside Attest (default 300ms).
+	AttestTakes time.Duration `json:"attest_takes,omitempty"`
 	// ProposeTakes: how long the recording proposer (focused variant) stays inside Propose (default 500ms).
 	ProposeTakes time.Duration `json:"propose_takes,omitempty"`
 	// AnswerAtRequest: a node computes the answer to a duties request when the request arrives and the
